@@ -46,7 +46,7 @@ READS = [(ST, 'codec.streaming::readFromStream[complete]'), (ST, 'codec.streamin
          (ST, 'codec.streaming::isEndOfStream[BytesIO]'), (ST, 'codec.streaming::isEndOfStream[generic]'),
          (ST, 'codec.streaming::peekIntoStream[no-peek]'), (ST, 'codec.streaming::peekIntoStream[peek]')]
 WRAPPER = [(ST, 'codec.streaming::CachingStreamWrapper.%s' % n) for n in
-           ('read', 'peek', 'tell', 'seek[back-to-mark]', 'seek[relative-back]', 'markedPosition.setter')]
+           ('read', 'peek', 'tell', 'seek[back-to-mark]', 'seek[relative-back]', 'markedPosition.setter', 'peek[non-blocking]')]
 DEC_SIMPLE = [(D, 'ber.decoder::IntegerPayloadDecoder.valueDecoder[complete]'),
               (D, 'ber.decoder::IntegerPayloadDecoder.valueDecoder[partial]'),
               (D, 'ber.decoder::NullPayloadDecoder.valueDecoder[complete]'),
@@ -509,6 +509,9 @@ PROPS['C17']['contracts'] = PROPS['C17']['contracts'] + [
     (E, 'ber.encoder::SequenceEncoder._encodesAsDefault[set-of,2-members]'),
     (E, 'ber.encoder::SequenceEncoder._encodesAsDefault[not-a-set-of]')]
 # C12: the native decoders leave the guiding type alone; a nested WITH COMPONENTS asks a record without instantiating
+PROPS['C12']['contracts'] = PROPS['C12']['contracts'] + [
+    (D, 'ber.decoder::ConstructedPayloadDecoderBase.valueDecoder@user-collector'),
+    (D, 'ber.decoder::ConstructedPayloadDecoderBase.indefLenValueDecoder@user-collector')]
 PROPS['C12']['contracts'] = PROPS['C12']['contracts'] + NATIVE_DEC + [
     (CN, 'type.constraint::WithComponentsConstraint._testValue[one-entry]'),
     (CN, 'type.constraint::WithComponentsConstraint._testValue[any-number-of-entries]')]
